@@ -37,6 +37,12 @@ def _variants(prop, renamed_mutants=False):
     if os.path.isdir(sd):
         for sid in sorted(os.listdir(sd)):
             if sid.split("-")[0] == prop and os.path.exists(os.path.join(sd, sid, "patch.diff")):
+                try:
+                    import json as _json0
+                    if _json0.load(open(os.path.join(sd, sid, "meta.json"))).get("declined"):
+                        continue  # recorded as outside what a sound static rule can decide (DESIGN section 13); not a regression target
+                except (OSError, ValueError):
+                    pass
                 m = dict(name=f"seeded change {sid}", patch=os.path.join(sd, sid, "patch.diff"), expect=None)
                 out.append(("mutant", m))
                 if renamed_mutants:
